@@ -91,8 +91,11 @@ class EdgeAnnotator(GraphAnnotator):
 
             for t in range(seg.shape[0] - 1):
                 nodes_in_t = nodes_by_frame[t]
-                edges = list(self.tracks.graph.out_edges(nodes_in_t))
-                self._iou_update(edges, seg[t], seg[t + 1])
+                edges_by_target_frame = defaultdict(list)
+                for edge in self.tracks.graph.out_edges(nodes_in_t):
+                    edges_by_target_frame[self.tracks.get_time(edge[1])].append(edge)
+                for target_t, edges in edges_by_target_frame.items():
+                    self._iou_update(edges, seg[t], seg[target_t])
 
     def _iou_update(
         self,
